@@ -55,8 +55,8 @@ func runSolver(ctx context.Context, sc solverCfg, file string, ms, seed int) (st
 	_ = cmd.Run()
 	secs = time.Since(t0).Seconds()
 	output = out.String()
-	if len(output) > 20000 {
-		output = output[:20000]
+	if len(output) > 4000000 {
+		output = output[:4000000]
 	}
 	first := ""
 	for _, l := range strings.Split(output, "\n") {
@@ -85,19 +85,21 @@ func runSolver(ctx context.Context, sc solverCfg, file string, ms, seed int) (st
 }
 
 type Solver struct {
-	dir        string
-	seed       int
-	quickMs    int // per-query budget of the race stages
-	fullMs     int // last-resort budget
-	sem        chan struct{}
-	mu         *sync.Mutex
-	perSolver  map[string]int
-	solverSecs float64
-	fastOnly   bool
-	nfile      int64
-	maxCubes   int
-	lastResort bool // run the final full-budget race (thorough tier)
+	dir         string
+	seed        int
+	quickMs     int // per-query budget of the race stages
+	fullMs      int // last-resort budget
+	sem         chan struct{}
+	mu          *sync.Mutex
+	perSolver   map[string]int
+	solverSecs  float64
+	fastOnly    bool
+	nfile       int64
+	maxCubes    int
+	lastResort  bool // run the final full-budget race (thorough tier)
 	slowApplied bool
+	oblBudget   time.Duration // wall-clock cap per obligation for the expensive stages (0 = none)
+	deadline    time.Time
 }
 
 func newSolver(dir string, seed, fullMs int, par int) *Solver {
@@ -325,6 +327,12 @@ func (s *Solver) solve(ex *Exec, o *Obl) *Verdict {
 		s2.slowApplied = true
 		return s2.solve(ex, o)
 	}
+	if s.oblBudget > 0 && s.deadline.IsZero() {
+		s2 := *s
+		s2.deadline = time.Now().Add(s.oblBudget)
+		return s2.solve(ex, o)
+	}
+	expired := func() bool { return !s.deadline.IsZero() && time.Now().After(s.deadline) }
 	lam := ex.usesLambda
 	all := []int{0, 1, 2}
 	zs := []int{0, 1}
@@ -373,6 +381,10 @@ func (s *Solver) solve(ex *Exec, o *Obl) *Verdict {
 		}
 		os.WriteFile(v.File, []byte(full+goal), 0o644)
 	}
+	if expired() {
+		v.Status = "timeout"
+		return v
+	}
 	// stage 2: conjuncts
 	if parts := splitAnd(o.Cond); len(parts) > 1 && !o.noSplit {
 		vs := make([]*Verdict, len(parts))
@@ -407,7 +419,7 @@ func (s *Solver) solve(ex *Exec, o *Obl) *Verdict {
 	if len(conds) > 10 {
 		conds = conds[len(conds)-10:]
 	}
-	if len(conds) > 0 {
+	if len(conds) > 0 && !expired() {
 		var leaves int64
 		st := s.cube(ex, full, goal, nil, conds, &leaves, lam, trustSat)
 		if st == "unsat" {
@@ -421,7 +433,7 @@ func (s *Solver) solve(ex *Exec, o *Obl) *Verdict {
 		}
 	}
 	// stage 4
-	if !s.lastResort {
+	if !s.lastResort || expired() {
 		v.Status = "timeout"
 		keep()
 		return v
@@ -437,7 +449,7 @@ func (s *Solver) solve(ex *Exec, o *Obl) *Verdict {
 // cube: prove prelude ∧ assumed ∧ goal unsat by adaptive case splitting on
 // conds. Returns "unsat" only if every leaf is unsat.
 func (s *Solver) cube(ex *Exec, prelude, goal string, assumed []string, conds []string, leaves *int64, lam, trustSat bool) string {
-	if atomic.LoadInt64(leaves) > int64(s.maxCubes) {
+	if atomic.LoadInt64(leaves) > int64(s.maxCubes) || (!s.deadline.IsZero() && time.Now().After(s.deadline)) {
 		return "timeout"
 	}
 	var b strings.Builder
